@@ -1,4 +1,4 @@
-HOOK_COMMITS = ["25b9903", "e342f48", "84839a7", "aa49a5c", "4d2c446"]
+HOOK_COMMITS = ["25b9903", "e342f48", "84839a7", "aa49a5c", "4d2c446", "0e5e31d"]
 NOTES = ("Driver: vcheck.py (python3 stdlib) builds the property test binary (and server binaries) from /repo's working tree with -tags verif, "
          "runs the saved replays, then the generated campaigns as parallel processes seeded from VERIF_SEED, merges statistics into evidence/<id>.json. "
          "Exit 2 = inconclusive (build failure/timeout), never a violation. known_findings.json lists fixed/known defects.")
